@@ -164,6 +164,13 @@ pub fn lib_source(spec: &Value) -> String {
             exports.push(format!("loaded-{}", s));
         }
     }
+    // an expression with an effect in the middle of the block, and a definition after it that
+    // records what it sees: the forms of a block are evaluated in the order written
+    if spec["body_expr"].as_bool().unwrap_or(false) {
+        body.push("(set! n (+ n 5))".to_string());
+        body.push(format!("(define snap-{} n)", s));
+        exports.push(format!("snap-{}", s));
+    }
     // an exported constant, and (optionally) a re-export of a dependency's procedure
     exports.push(format!("(rename k const-{})", s));
     body.push(format!("(define k {})", 700 + spec["k"].as_i64().unwrap_or(1)));
@@ -555,6 +562,7 @@ fn gen_lib(rng: &mut Rng, short: &str, imports: Vec<String>, health: &str, allow
         "layout_other": layout_other,
         "decl_shape": rng.below(6),
         "twins": rng.chance(1, 3),
+        "body_expr": rng.chance(1, 3),
         "load_effect": rng.chance(1, 3),
     })
 }
@@ -609,6 +617,9 @@ fn external_names(spec: &Value) -> Vec<(String, String)> {
     v.push((format!("use-twice-{}", s), "use-helper".to_string()));
     if spec["spoiler"].as_bool().unwrap_or(false) {
         v.push((format!("spoil-{}!", s), "spoil".to_string()));
+    }
+    if spec["body_expr"].as_bool().unwrap_or(false) {
+        v.push((format!("snap-{}", s), "const".to_string()));
     }
     if spec["twins"].as_bool().unwrap_or(false) {
         v.push((format!("again-{}!", s), "next".to_string()));
@@ -758,6 +769,10 @@ pub fn generate_c13(seed: u64, quick: bool) -> Value {
         for (vis, orig) in bound {
             let kind = names.iter().find(|(n, _)| *n == orig).unwrap().1.clone();
             visible.insert(vis, Visible { lib: s.clone(), kind });
+        }
+        // the same program directory under another spelling: nothing changes
+        if rng.chance(1, 6) {
+            ops.push(json!({"op": "respell", "k": "program-directory-respelled", "spelling": rng.below(5)}));
         }
         // driver-level probes that do not end the import phase
         let probes = rng.range(0, 2);
@@ -953,7 +968,8 @@ fn generate_c14(seed: u64, quick: bool) -> Value {
         if !causes.is_empty() {
             last_failed = Some(target.clone());
         }
-        ops.push(json!({"op": "import", "lib": target}));
+        let style = if rng.chance(1, 4) { rng.range(1, 3) } else { 0 };
+        ops.push(json!({"op": "import", "lib": target, "style": style}));
     }
     json!({
         "seed": seed,
@@ -1179,6 +1195,20 @@ fn execute_c13(case: Value) -> RunResult {
                 let got = eval_outcome(&mut it, &text);
                 (text, expected, got)
             }
+            Some("respell") => {
+                let abs = sb.prog.to_string_lossy().to_string();
+                let p = match op["spelling"].as_u64().unwrap_or(0) {
+                    0 => abs.clone(),
+                    1 => "../prog".to_string(),
+                    2 => "../prog/.".to_string(),
+                    3 => format!("{}/../prog", abs),
+                    _ => "../cwd/../prog".to_string(),
+                };
+                it.program_directory = Some(PathBuf::from(&p));
+                res.log.push(format!("{:>3} [{}] program directory now spelled {}", step, kind, p.replace(&abs, "<prog>")));
+                res.count("event.program_directory_respelled");
+                continue;
+            }
             Some("driver-call") => {
                 let name = op["name"].as_str().unwrap_or("").to_string();
                 let args: Vec<i64> = op["args"].as_array().map(|a| a.iter().filter_map(|x| x.as_i64()).collect()).unwrap_or_default();
@@ -1331,8 +1361,19 @@ fn execute_c13(case: Value) -> RunResult {
     res
 }
 
-fn import_class(it: &mut Interpreter<'static, f32>, lib: &str) -> Result<String, crate::hashseed::PanicRecord> {
-    match eval_outcome(it, &format!("(import {})", key_of(lib))) {
+/// the import set an attempt uses: the bare name, or an operator that asks for nothing of the
+/// library's (loading it for its effects), or one that keeps everything
+fn styled_set(lib: &str, style: u64) -> String {
+    match style {
+        1 => format!("(only {})", key_of(lib)),
+        2 => format!("(prefix {} q:)", key_of(lib)),
+        3 => format!("(except {})", key_of(lib)),
+        _ => key_of(lib),
+    }
+}
+
+fn import_class(it: &mut Interpreter<'static, f32>, lib: &str, style: u64) -> Result<String, crate::hashseed::PanicRecord> {
+    match eval_outcome(it, &format!("(import {})", styled_set(lib, style))) {
         Outcome::Value(_) => Ok("Ok".to_string()),
         Outcome::Error(k) => Ok(class_of(&k)),
         Outcome::Panic(p) => Err(p),
@@ -1511,7 +1552,8 @@ fn execute_c14(case: Value) -> RunResult {
                         }
                     }
                 }
-                let observed = match import_class(&mut it, &lib) {
+                let style = op["style"].as_u64().unwrap_or(0);
+                let observed = match import_class(&mut it, &lib, style) {
                     Ok(c) => c,
                     Err(p) => {
                         res.log.push(format!("{:>3} [import] {} => PANIC {}", step, lib, p.signature()));
@@ -1524,7 +1566,7 @@ fn execute_c14(case: Value) -> RunResult {
                 };
                 // the same import on a fresh interpreter over the same world state
                 let fresh = match new_interpreter(&sb, &current) {
-                    Ok(mut f) => match import_class(&mut f, &lib) {
+                    Ok(mut f) => match import_class(&mut f, &lib, style) {
                         Ok(c) => c,
                         Err(p) => {
                             res.log.push(format!("{:>3} [import] {} => {} | fresh interpreter PANIC {}", step, lib, observed, p.signature()));
@@ -1581,7 +1623,7 @@ fn execute_c14(case: Value) -> RunResult {
                     break;
                 }
                 // success must have bound the library's exports, from the right directory
-                if observed == "Ok" && !any_event {
+                if observed == "Ok" && !any_event && style == 0 {
                     if let Some(spec) = current.iter().find(|l| l["short"].as_str() == Some(&lib)) {
                         for (name, kind) in external_names(spec) {
                             let ok = match it.env.get(&name).map(|v| obs_of_value(&v)) {
